@@ -205,8 +205,30 @@ func (db *DB) Backup(dir string) error {
 	if err := removeStaleBackupFiles(db.options.DirPath, dir); err != nil {
 		return err
 	}
+	// 目标目录旁可能残留着曾经位于该目录的数据库的 merge 临时目录: 若其中带有完成标识,
+	// 打开备份时会被当作备份自身已完成的 merge 采用, 覆盖刚刚拷贝的数据文件. 与 Merge 清理残留目录相同, 先删除完成标识
+	if err := removeStaleMergeDir(db.options.DirPath, dir); err != nil {
+		return err
+	}
 	// 将数据目录中的数据文件拷贝到指定目录中
 	return utils.CopyDir(db.options.DirPath, dir, []string{datafile.FileLockSuffix})
+}
+
+// 删除备份目录旁残留的 merge 临时目录
+func removeStaleMergeDir(src, dest string) error {
+	mergePath := filepath.Join(filepath.Dir(filepath.Clean(dest)), filepath.Base(dest)+mergeDirName)
+	// 数据目录自身恰好以该名称命名时不属于残留目录
+	if mergePath == filepath.Clean(src) {
+		return nil
+	}
+	if _, err := os.Stat(mergePath); err != nil {
+		return nil
+	}
+	markerFile := datafile.GetFileName(mergePath, 0, datafile.MergeFinishedFileSuffix)
+	if err := os.Remove(markerFile); err != nil && !os.IsNotExist(err) {
+		return err
+	}
+	return os.RemoveAll(mergePath)
 }
 
 // 删除备份目录中源目录已不存在的数据文件和 hint 文件
